@@ -608,6 +608,63 @@ def exposed_state(run):
                             "C10_returned_copy_detached")
 
 
+def emptied_argument_cases(run):
+    """an option dictionary / a step list passed once, emptied in place by the
+    caller ("back to the defaults" / "back to the raw data") and passed again:
+    the call behaves as for a fresh empty object on a fresh curve with the
+    same first call, and as for a curve that only ever saw the empty value"""
+    opts0 = {"correct_tip_offset": {"method": "fit_constant_line"}}
+    calls = {
+        "apply_preprocessing(options)": lambda i, p, o:
+            i.apply_preprocessing(preprocessing=p, options=o),
+        "fit_model(preprocessing_options)": lambda i, p, o: i.fit_model(
+            preprocessing=p, preprocessing_options=o, model_key="hertz_para"),
+    }
+    with warnings.catch_warnings():
+        warnings.simplefilter("ignore")
+        for cname, call in calls.items():
+            for what in ("options", "steps"):
+                sc = f"emptied|{cname}|{what}"
+                payload = {"kind": "emptied", "call": cname, "what": what}
+                run.case({"emptied": what, "call": cname}, kind="emptied")
+                try:
+                    a, c = curve(), curve()
+                    steps, opts = list(PIPE), copy.deepcopy(opts0)
+                    call(a, steps, opts)
+                    if what == "options":
+                        opts.clear()
+                    else:
+                        del steps[1:]
+                    call(a, steps, opts)
+                    # a curve that only ever saw the final values
+                    call(c, list(steps), copy.deepcopy(opts))
+                    d = diff(outcome(a), outcome(c))
+                    if cname.startswith("fit_model"):
+                        # (the initial parameters guessed for the first
+                        # call are remembered settings: the fit results may
+                        # differ from a curve without that first call)
+                        d = [x_ for x_ in d
+                             if x_ not in ("hash", "params", "fit")]
+                    rem = (list(a.preprocessing),
+                           copy.deepcopy(a.preprocessing_options))
+                except BaseException as e:
+                    run.failing(SITE, sc + "|raised", f"{sc}: raised "
+                                f"{type(e).__name__}: {e}", payload=payload)
+                    continue
+                if d:
+                    run.failing(SITE, sc + "|noticed", f"{sc}: after the "
+                                f"caller emptied the {what} in place and "
+                                "passed them again the curve differs "
+                                f"({d}) from a curve that was only ever "
+                                "given the emptied value", payload=payload,
+                                theorem="C10_by_value")
+                elif rem != (list(steps), dict(opts)):
+                    run.failing(SITE, sc + "|remembered", f"{sc}: the curve "
+                                f"remembers {rem}, the last call passed "
+                                f"({steps}, {opts})", payload=payload,
+                                theorem="C10_by_value")
+
+
 def rating_arguments(run):
     names = ["feat_con_apr_sum", "feat_con_idt_sum", "feat_con_apr_size",
              "feat_con_bln_slope"]
@@ -845,6 +902,7 @@ def check(run):
     twin_scenarios(run, mirrors)
     returned_objects(run, mirrors)
     exposed_state(run)
+    emptied_argument_cases(run)
     rating_arguments(run)
     array_arguments(run)
     exprs = [e for m in mirrors for (e, _) in m.exprs]
